@@ -1023,15 +1023,37 @@ func c11Env(p *Program, r *Report) {
 					n++
 					inst := fmt.Sprintf("%s|wraps for %s at block %d", funcName(fn), callee.Name(), b.Index)
 					arg := c.Call.Args[2]
-					good, why := false, ""
-					if vc, ok := arg.(*ssa.Call); ok {
-						if o := calleeObj(vc); o != nil && isFuncNamed(o, "reflect", "", "ValueOf") && vc.Call.Args[0] == ssa.Value(fn.Params[2]) {
-							good = true
-						} else if vcallee := staticCallee(vc); vcallee != nil && vcallee.Pkg == sp && len(vc.Call.Args) == 0 {
-							// a nil value: only under value == nil
-							good = nilGuarded(b, fn.Params[2])
-							why = "a substitute value is bound although the value handed in is not nil"
+					good, why := true, ""
+					// the alternatives the bound value can be (a phi when the wrapper picks the value first and calls once)
+					type alt struct {
+						v    ssa.Value
+						from *ssa.BasicBlock
+					}
+					alts := []alt{{arg, b}}
+					if ph, ok := arg.(*ssa.Phi); ok {
+						alts = nil
+						for i, e := range ph.Edges {
+							alts = append(alts, alt{e, ph.Block().Preds[i]})
 						}
+					}
+					for _, a := range alts {
+						vc, ok := a.v.(*ssa.Call)
+						if !ok {
+							good = false
+							continue
+						}
+						if o := calleeObj(vc); o != nil && isFuncNamed(o, "reflect", "", "ValueOf") && vc.Call.Args[0] == ssa.Value(fn.Params[2]) {
+							continue
+						}
+						if vcallee := staticCallee(vc); vcallee != nil && vcallee.Pkg == sp && len(vc.Call.Args) == 0 {
+							// a nil value: only under value == nil
+							if !nilGuarded(a.from, fn.Params[2]) && !nilGuarded(vc.Block(), fn.Params[2]) {
+								good = false
+								why = "a substitute value is bound although the value handed in is not nil"
+							}
+							continue
+						}
+						good = false
 					}
 					if why == "" {
 						why = "the value bound is not reflect.ValueOf of the value handed in"
